@@ -219,6 +219,68 @@ fn weight_grid(tier: &str) -> Vec<f64> {
     v
 }
 
+/// documents far beyond any I/O block size, node names made of multi-byte characters, four byte alignments: the file
+/// variant reads / writes in blocks, and no character may be damaged at a block boundary
+fn large_document_stage(rec: &Recorder, total: &Mutex<Counters>) {
+    let mut cn = Counters::default();
+    for pad in 0..4usize {
+        for directed in [false, true] {
+            let n = 1200usize;
+            let names: Vec<String> = (0..n).map(|i| format!("{}\u{e9}\u{20ac}\u{1f30d}-{i}-\u{65e5}\u{672c}", if i == 0 { "x".repeat(pad) } else { String::new() })).collect();
+            let mut g: GS = Graph::new(specs_for(directed, false, false, 0));
+            for nm in &names {
+                g.add_node(Node::from_name(nm.clone()));
+            }
+            for i in 0..n {
+                let _ = g.add_edge(Arc::new(Edge { u: names[i].clone(), v: names[(i * 7 + 1) % n].clone(), weight: if i % 3 == 0 { f64::NAN } else { i as f64 + 0.25 }, attributes: None }));
+            }
+            cn.inc("large_document_round_trips");
+            let label = format!("big:{pad}:{}", directed as u8);
+            let mk = |clause: &str, call: &str, detail: String| Violation::new(clause, call, label.clone(), format!("graph with {n} nodes named like {:?} (first name padded with {pad} ASCII bytes), directed={directed}\n{detail}", names[1]));
+            let path = format!("/verif/work/c14_big_{}_{pad}_{}.graphml", std::process::id(), directed as u8);
+            let _ = std::fs::create_dir_all("/verif/work");
+            let doc = match guarded(|| graphml::write_graphml_string(&g)) {
+                Ok(Ok(s)) => s,
+                Ok(Err(e)) => {
+                    rec.record(mk("write_failed", "write_graphml_string", format!("{e}")));
+                    continue;
+                }
+                Err(pi) => {
+                    rec.record(mk("no_panic", "write_graphml_string", pi.msg.clone()).with_panic(pi));
+                    continue;
+                }
+            };
+            let e1 = edges_canon(&g);
+            let check_back = |call: &str, r: Result<Result<GS, graphrs::Error>, PanicInfo>| match r {
+                Ok(Ok(back)) => {
+                    let n2: Vec<String> = back.get_all_nodes().iter().map(|x| x.name.clone()).collect();
+                    if n2 != names {
+                        let k = (0..n2.len().min(names.len())).find(|&k| n2[k] != names[k]);
+                        rec.record(mk("node_names", call, format!("node names differ after the round trip (first difference at {k:?}: {:?} vs {:?}; {} vs {} nodes)", k.map(|k| &n2[k]), k.map(|k| &names[k]), n2.len(), names.len())));
+                    } else if edges_canon(&back) != e1 {
+                        rec.record(mk("edge_multiset", call, "edges differ after the round trip".into()));
+                    }
+                }
+                Ok(Err(e)) => rec.record(mk("read_back_failed", call, format!("Err({:?}) {}", e.kind, e.message))),
+                Err(pi) => rec.record(mk("no_panic", call, pi.msg.clone()).with_panic(pi)),
+            };
+            check_back("read_graphml_string", guarded(|| graphml::read_graphml_string(&doc, g.specs.clone())));
+            match guarded(|| graphml::write_graphml_file(&g, &path)) {
+                Ok(Ok(())) => {
+                    if std::fs::read_to_string(&path).unwrap_or_default() != doc {
+                        rec.record(mk("file_equals_string", "write_graphml_file", format!("the file variant wrote a different document ({} bytes in the string variant)", doc.len())));
+                    }
+                    check_back("read_graphml_file", guarded(|| graphml::read_graphml_file(&path, g.specs.clone())));
+                }
+                Ok(Err(e)) => rec.record(mk("write_failed", "write_graphml_file", format!("{e}"))),
+                Err(pi) => rec.record(mk("no_panic", "write_graphml_file", pi.msg.clone()).with_panic(pi)),
+            }
+            let _ = std::fs::remove_file(&path);
+        }
+    }
+    total.lock().unwrap().merge(&cn);
+}
+
 pub fn run(tier: &str, rec: &Recorder) -> RunOutput {
     let start = Instant::now();
     let mut out = RunOutput::new("model_checking");
@@ -299,6 +361,7 @@ pub fn run(tier: &str, rec: &Recorder) -> RunOutput {
         }
         total.lock().unwrap().merge(&cn);
     });
+    large_document_stage(rec, &total);
     let t = total.into_inner().unwrap();
     for (k, v) in &t.0 {
         out.add(k, *v);
@@ -324,6 +387,11 @@ pub fn replay(case: &str, rec: &Recorder) -> bool {
     let wm = weight_menu();
     let mut cn = Counters::default();
     for _ in 0..2 {
+        if p[0] == "big" {
+            let total = Mutex::new(Counters::default());
+            large_document_stage(rec, &total);
+            break;
+        }
         if p[0] == "wt" && p.len() == 3 {
             let bits = u64::from_str_radix(p[1].trim_start_matches("0x"), 16).unwrap_or(0);
             let c = Case { names: vec!["a", "b"], edges: vec![(1, 0, f64::from_bits(bits))], specs: specs_for(p[2] == "1", false, false, 0), label: case.to_string() };
